@@ -238,7 +238,7 @@ func handleSpecialFunction(sb *strings.Builder, n *ast.FunctionCall, alias strin
 
 	// POSITION('ll' IN 'Hello') -> position('Hello', 'll')
 	if fnName == "POSITION" && len(n.Arguments) == 1 {
-		if inExpr, ok := n.Arguments[0].(*ast.InExpr); ok {
+		if inExpr, ok := n.Arguments[0].(*ast.InExpr); ok && len(inExpr.List) > 0 {
 			// Transform: POSITION(needle IN haystack) -> position(haystack, needle)
 			explainPositionWithIn(sb, inExpr.Expr, inExpr.List[0], alias, indent, depth)
 			return true
